@@ -294,6 +294,7 @@ class Gen:
                     if kv is None: continue
                     if kv >= cfg["n"]: rk = "int"      # from_bits([]) is the plain int 0
                 out.append(["bin", self.new(rk), op, a, b])
+                if rk == "int" and op == "rshift": self.ints[self.nreg - 1] = 0
             elif choice == "un":
                 a = self.pick(["lc", "bool", "fxp", "int", "any"])
                 if a is None: continue
@@ -340,6 +341,7 @@ class Gen:
                 if t_ == f_: rk = self.kind(t_)
                 elif self.kind(cnd) == "int":
                     cv = self.ints.get(cnd)
+                    if cv is None: continue     # an int condition of unknown value could select a plain int branch
                     rk = self.kind(t_) if cv == 1 else self.kind(f_) if cv == 0 else "any"
                 if rk == "int": continue        # keep plain ints out of later operators
                 out.append(["ite", self.new(rk), cnd, t_, f_])
